@@ -151,8 +151,11 @@ class CallMixin(ExprMixin):
             return res
         # pattern "callee" matches any call of it, "callee/N" only calls with N positional arguments,
         # "callee#K" only the K-th call of it in the function's source text (0-based)
+        # (a callee reached through a local that merely names an attribute chain - `m = self._mgr; m.f()` - also answers to
+        # the chain's text: contracts written against `self._mgr.f` keep binding when such a local is introduced or removed)
+        texts = self.call_texts(ftext) if not self.spec else [ftext]
         hooks_b = [h for h in self.c.hooks if h[0] == "before" and
-                   (_match(h[1], ftext) or _match(h[1], "%s/%d" % (ftext, len(e.args)))
+                   (any(_match(h[1], t) or _match(h[1], "%s/%d" % (t, len(e.args))) for t in texts)
                     or ("#" in h[1] and _match(h[1], "%s#%d" % (ftext, self.call_occurrence(e, ftext)))))] if not self.spec else []
         res = []
         for s, f in self.ev(e.func, st):
@@ -180,7 +183,7 @@ class CallMixin(ExprMixin):
                         self.run_hook(s2, h, e, extra)
                 res.extend(self.call(s2, f, args, kw, e, ftext))
         if not self.spec:
-            hooks_a = [h for h in self.c.hooks if h[0] == "after" and _match(h[1], ftext)]
+            hooks_a = [h for h in self.c.hooks if h[0] == "after" and any(_match(h[1], t) for t in self.call_texts(ftext))]
             for h in hooks_a:
                 for s, r in res:
                     self.run_hook(s, h, e, {"result": r} if isinstance(r, V) else None)
@@ -446,10 +449,52 @@ class CallMixin(ExprMixin):
         return m
 
     def find_call_model(self, ftext, alt=None):
+        texts = self.call_texts(ftext)
         for cm in self.c.calls:
-            if _match(cm.pattern, ftext) or (alt and _match(cm.pattern, alt)):
+            if any(_match(cm.pattern, t) for t in texts) or (alt and _match(cm.pattern, alt)):
                 return cm
         return None
+
+    def call_texts(self, ftext):
+        """the callee text and, when its root is a local assigned exactly once in the function from a plain attribute chain
+        (`txn_manager = self._txn_manager`), the text with that chain written out"""
+        amap = getattr(self, "_alias_map", None)
+        if amap is None:
+            amap = self._alias_map = {}
+            root = getattr(self, "fnode", None)
+            counts = {}
+            if root is not None:
+                def chain(v):
+                    while isinstance(v, ast.Attribute):
+                        v = v.value
+                    return isinstance(v, ast.Name)
+                for n in ast.walk(root):
+                    tgts = []
+                    if isinstance(n, ast.Assign):
+                        tgts = [t for t in n.targets]
+                    elif isinstance(n, (ast.AugAssign, ast.AnnAssign)):
+                        tgts = [n.target]
+                    elif isinstance(n, (ast.For, ast.AsyncFor)):
+                        tgts = [n.target]
+                    elif isinstance(n, (ast.With, ast.AsyncWith)):
+                        tgts = [i.optional_vars for i in n.items if i.optional_vars is not None]
+                    elif isinstance(n, ast.NamedExpr):
+                        tgts = [n.target]
+                    for t in tgts:
+                        for x in ast.walk(t):
+                            if isinstance(x, ast.Name):
+                                counts[x.id] = counts.get(x.id, 0) + 1
+                    if isinstance(n, ast.Assign) and len(n.targets) == 1 and isinstance(n.targets[0], ast.Name) \
+                            and isinstance(n.value, ast.Attribute) and chain(n.value):
+                        amap[n.targets[0].id] = ast.unparse(n.value)
+                params = {a.arg for a in root.args.args + root.args.kwonlyargs}
+                for k in list(amap):
+                    if counts.get(k, 0) != 1 or k in params:
+                        del amap[k]
+        head, dot, rest = ftext.partition(".")
+        if dot and head in amap:
+            return [ftext, amap[head] + "." + rest]
+        return [ftext]
 
     # ------------------------------------------------------------------ builtins
     def call_lazy(self, st, f, e):
